@@ -207,6 +207,41 @@ impl Q {
         }
     }
 
+    /// (position of the highest set bit, position of the lowest set bit) of a dyadic number, as powers of two
+    pub fn bit_span(&self) -> Option<(i64, i64)> {
+        match self {
+            Q::S(n, d) => {
+                if *n == 0 {
+                    return None;
+                }
+                if !(*d as u128).is_power_of_two() {
+                    return None;
+                }
+                let dexp = (*d as u128).trailing_zeros() as i64;
+                let m = n.unsigned_abs();
+                let low = m.trailing_zeros() as i64;
+                let high = 127 - m.leading_zeros() as i64;
+                Some((high - dexp, low - dexp))
+            }
+            Q::B(b) => {
+                use num_traits::{One, Signed, Zero};
+                let (n, d) = (&b.0, &b.1);
+                if n.is_zero() {
+                    return None;
+                }
+                // denominator must be a power of two
+                let dz = d.trailing_zeros()?;
+                if (d >> dz) != num_bigint::BigInt::one() {
+                    return None;
+                }
+                let m = n.abs();
+                let low = m.trailing_zeros()? as i64;
+                let high = m.bits() as i64 - 1;
+                Some((high - dz as i64, low - dz as i64))
+            }
+        }
+    }
+
     pub fn is_exact_f64(&self) -> bool {
         match self.dyadic_bits() {
             Some(b) => b <= 53,
